@@ -7,6 +7,7 @@ import RichModel.Lemmas.WrapFullFold
 import RichModel.Lemmas.WrapNorm
 import RichModel.Lemmas.WrapTabs
 import RichModel.Lemmas.WrapWhole
+import RichModel.Lemmas.WrapRstrip
 import RichModel.Props.C13
 /-!
 # C02 — word wrapping keeps every character, in order, with its own style
@@ -21,12 +22,17 @@ Reference semantics (C05): `Text.view t : List (Char × List σ)` — every char
 apply to it, base style first, then the covering spans in span order ("later spans win" is the order of that
 list).  `nsv v` is the sub-list of the non-whitespace characters (Python's `str.isspace` class, generated).
 
-Variants.  `(WVariant.fixed chars)` = the code in /repo today: rich 9.10.0 with the two repairs this machinery asked for
+Variants.  `WVariant.fixed chars` = the code in /repo: rich 9.10.0 with the two repairs this machinery asked for
 (`fix:` commits aad03fe "Text.divide keeps the order of equal spans" — found by C05, reproduced through `wrap` here —
-and 90b2e96 "Lines.justify does not pad by a negative amount" — found by C02, `pending_fixes/C02-justify-negative-pad.diff`);
-`WVariant.released` = rich 9.10.0 as released.  The `old_…` theorems exhibit, by evaluation, a concrete input on which
-the released code violates the statement proved for the repaired code; the harness passes the flags that match the code
-it runs against, so a regression of either repair shows up as a correspondence mismatch and a direct-evaluation failure.
+and 90b2e96 "Lines.justify does not pad by a negative amount" — found by C02), with `Text.rstrip_end` in either form:
+`chars = true` compares the *character* count of a line with the cell width (today), `chars = false` the cell length
+(pending_fixes/C08-rstrip-end-counts-cells.diff).  **Every theorem below that mentions `chars` holds for both values**
+(`rstrip_end` removes nothing but trailing whitespace either way); what the C08 repair adds is stated separately
+(`fold_lines_fit_before_crop`, repaired form only) with the witness `old_wrap_ellipsis_drops_fitting_char` for today's
+form.  `WVariant.repaired = WVariant.fixed false`; `WVariant.released` = rich 9.10.0 as released.  The `old_…` theorems
+exhibit, by evaluation, a concrete input on which the older code violates the statement proved for the repaired code;
+the harness passes the flags that match the code it runs against, so a regression of any repair shows up as a
+correspondence mismatch and a direct-evaluation failure.
 
 Justify "full" rebuilds every line but the last as `Text("").join(tokens)`, which puts the null style `""` of
 `Text("")` in front of every effective style; statements that include "full" therefore compare styled strings after
@@ -119,7 +125,7 @@ theorem old_wrap_reorders_styles :
   constructor <;> rfl
 
 example :
-    (wrap (WVariant.fixed chars) (fun _ => 1) (⟨0, List.sum, (· == ·)⟩ : StyleAlg Nat)
+    (wrap WVariant.repaired (fun _ => 1) (⟨0, List.sum, (· == ·)⟩ : StyleAlg Nat)
         (Text.new Variant.repaired ['a', ' ', 'b'] 0 [⟨0, 3, 1⟩, ⟨2, 3, 2⟩, ⟨2, 3, 1⟩]) 2).map (fun ls => ls.map Text.view)
       = .ok [[('a', [0, 1]), (' ', [0, 1])], [('b', [0, 1, 2, 1])]] := by rfl
 
@@ -326,9 +332,51 @@ theorem old_justify_negative_pad :
       = .ok [[('a', [0, 1]), ('b', [0, 1]), ('c', [0])]] := by rfl
 
 example :
-    (wrap (WVariant.fixed chars) (fun _ => 1) (⟨0, List.sum, (· == ·)⟩ : StyleAlg Nat)
+    (wrap WVariant.repaired (fun _ => 1) (⟨0, List.sum, (· == ·)⟩ : StyleAlg Nat)
         (Text.new Variant.repaired ['a', 'b', 'c'] 0 [⟨1, 3, 1⟩]) 2 (some .right) (some .ignore)).map (fun ls => ls.map Text.view)
       = .ok [[('a', [0]), ('b', [0, 1]), ('c', [0, 1])]] := by rfl
+
+/-- a width function with a 2-cell and a 0-cell character that meets the hypotheses -/
+def exCw (c : Char) : Nat := if c = 'あ' then 2 else if c = '̀' then 0 else 1
+
+/-! ## `rstrip_end` counting cells (C08 repair): lines fit before the final crop -/
+
+/-- With the repaired `rstrip_end` (`chars = false`) every line of a fold-wrapped paragraph already fits the width
+when it leaves `rstrip_end` — the final `truncate` has nothing to cut and, in particular, "ellipsis"/"crop" never
+touch a line whose text fits — provided no whitespace character is zero cells wide. -/
+theorem fold_lines_fit_before_crop [BEq σ] (cw : Char → Nat) (h2 : ∀ c, cw c ≤ 2)
+    (hws : ∀ c, pyIsSpace c = true → 1 ≤ cw c) (w : Nat) (hw : 2 ≤ w) (P : Text σ) (hP : Inv P) :
+    ∃ lines, P.divide Variant.repaired (divideLine cw P.plain w true) = .ok lines ∧
+      ∀ l ∈ lines, cellLen cw (Text.rstripEndW false cw Variant.repaired l (w : Int)).plain ≤ w := by
+  have hwc : ∀ c, cw c ≤ w := fun c => Nat.le_trans (h2 c) hw
+  obtain ⟨hpw, hin⟩ := Wrap.divideLine_offsets cw P.plain w true hwc
+  have hasc : AscFrom 0 (divideLine cw P.plain w true) :=
+    ascFrom_of_pairwise _ 0 (hpw.imp (fun h => Nat.le_of_lt h)) (fun o _ => Nat.zero_le o)
+  obtain ⟨lines, hdiv, _, hplain, _⟩ := Text.divide_view P _ hP hasc (fun o ho => Nat.le_of_lt (hin o ho).2)
+  refine ⟨lines, hdiv, fun l hl => rstripEnd_cells_fits cw hws l w ?_⟩
+  apply Wrap.divideLine_pieces_fit cw P.plain w hwc
+  rw [← hplain]; exact List.mem_map_of_mem hl
+
+example : ∀ c, pyIsSpace c = true → 1 ≤ exCw c := by
+  intro c h
+  unfold exCw
+  split
+  · omega
+  · split
+    · rename_i hc; subst hc; exact absurd h (by decide)
+    · omega
+
+/-- today's `rstrip_end` compares characters with cells: `"ああ b"` at width 4 leaves the first line as `"ああ "`
+(3 characters ≤ 4, but 5 cells), so with overflow "ellipsis" the final crop turns it into `"あ …"` and a character
+that fits is lost; the repaired form strips the blank and keeps `"ああ"`. -/
+theorem old_wrap_ellipsis_drops_fitting_char :
+    (wrap (WVariant.fixed true) exCw (⟨0, List.sum, (· == ·)⟩ : StyleAlg Nat)
+        (Text.new Variant.repaired ['あ', 'あ', ' ', 'b'] 0) 4 none (some .ellipsis)).map (fun ls => ls.map (·.plain))
+      = .ok [['あ', ' ', '…'], ['b']] ∧
+    (wrap (WVariant.fixed false) exCw (⟨0, List.sum, (· == ·)⟩ : StyleAlg Nat)
+        (Text.new Variant.repaired ['あ', 'あ', ' ', 'b'] 0) 4 none (some .ellipsis)).map (fun ls => ls.map (·.plain))
+      = .ok [['あ', 'あ'], ['b']] := by
+  constructor <;> rfl
 
 /-! ## the hypotheses are satisfiable; the theorems at rich's own width table -/
 
@@ -346,9 +394,6 @@ example : Inv exText := inv_new _ _ _ _ _ _ _ _ (by
   simp only [List.mem_cons, List.mem_nil_iff, or_false] at hsp
   rcases hsp with rfl | rfl | rfl | rfl | rfl <;> decide)
 
-/-- a width function with a 2-cell and a 0-cell character that meets the hypotheses -/
-def exCw (c : Char) : Nat := if c = 'あ' then 2 else if c = '̀' then 0 else 1
-
 example : exCw ' ' = 1 ∧ (∀ c, exCw c ≤ 2) ∧ exCw '…' = 1 :=
   ⟨by decide, fun c => by unfold exCw; split <;> (try split) <;> omega, by decide⟩
 
@@ -356,12 +401,12 @@ example : exCw ' ' = 1 ∧ (∀ c, exCw c ≤ 2) ∧ exCw '…' = 1 :=
 example : divideLine exCw exText.plain 2 true = [1, 2, 5, 7, 9] := by decide
 
 example :
-    (wrap (WVariant.fixed chars) exCw (⟨0, List.sum, (· == ·)⟩ : StyleAlg Nat) exText 2).map (fun ls => ls.map (·.plain))
+    (wrap WVariant.repaired exCw (⟨0, List.sum, (· == ·)⟩ : StyleAlg Nat) exText 2).map (fun ls => ls.map (·.plain))
       = .ok [['a'], ['あ'], [' ', 'b', '̀'], ['c', 'd'], [' ', ' '], ['e']] := by rfl
 
 /-- centred: the styles stay on their characters, the padding carries the bare base style -/
 example :
-    (wrap (WVariant.fixed chars) exCw (⟨0, List.sum, (· == ·)⟩ : StyleAlg Nat) exText 2 (some .center)).map
+    (wrap WVariant.repaired exCw (⟨0, List.sum, (· == ·)⟩ : StyleAlg Nat) exText 2 (some .center)).map
         (fun ls => ls.map Text.view)
       = .ok [[('a', [0, 1]), (' ', [0])], [('あ', [0, 1, 1])],
           [(' ', [0, 1, 1]), ('b', [0, 1, 2, 2, 1]), ('̀', [0, 1, 2, 2, 1])],
